@@ -5,6 +5,7 @@ package main
 import (
 	"bytes"
 	"context"
+	"encoding/json"
 	"fmt"
 	"go/types"
 	"os"
@@ -23,7 +24,8 @@ func (cx *Ctx) newUnit(name string) *Unit {
 		callsInlined: map[string]bool{}, callsContract: map[string]bool{}, callsTrusted: map[string]bool{}, callsHavoc: map[string]bool{}, callsNoEffect: map[string]bool{}}
 	u.heapPtr = map[string]string{}
 	u.freshRefs = map[string]bool{}
-	u.dryRows, u.dryWhole = map[string]map[string]bool{}, map[string]bool{}
+	u.closureSeen = map[string]bool{}
+	u.dryRows, u.dryWhole, u.dryFresh = map[string]map[string]bool{}, map[string]bool{}, map[string]bool{}
 	u.regHeap("$alloc", "Int")
 	u.regHeap("$clock", "Int")
 	return u
@@ -58,9 +60,82 @@ type OblResult struct {
 	Output  string
 }
 
+// buildFuncUnit generates the unit; inferred loop-frame candidates that fail their check are
+// withdrawn and the unit is regenerated (Houdini), so only justified candidates remain assumed.
 func (cx *Ctx) buildFuncUnit(fn *ssa.Function, fc *FuncContract) (u *Unit, err error) {
+	bl := map[string]bool{}
+	hintMu.Lock()
+	for _, k := range houdiniHints[fn.String()] {
+		bl[k] = true
+	}
+	hintMu.Unlock()
+	for attempt := 0; attempt < 8; attempt++ {
+		u, err = cx.buildFuncUnitOnce(fn, fc, bl)
+		if err != nil || u == nil || len(u.autoFailed) == 0 {
+			break
+		}
+		for _, k := range u.autoFailed {
+			bl[k] = true
+		}
+	}
+	hintMu.Lock()
+	houdiniUsed[fn.String()] = sortedKeys(bl)
+	hintMu.Unlock()
+	return u, err
+}
+
+// Houdini hints: candidates known (from an earlier run) to fail their check are not tried again.
+// Hints only save time: every candidate that is assumed is still checked on every run.
+var (
+	hintMu       sync.Mutex
+	houdiniHints = map[string][]string{}
+	houdiniUsed  = map[string][]string{}
+)
+
+func loadHoudiniHints(path string) {
+	b, err := os.ReadFile(path)
+	if err == nil {
+		json.Unmarshal(b, &houdiniHints)
+	}
+}
+
+func saveHoudiniHints(path string) {
+	hintMu.Lock()
+	defer hintMu.Unlock()
+	all := map[string][]string{}
+	for k, v := range houdiniHints {
+		all[k] = v
+	}
+	for k, v := range houdiniUsed {
+		if len(v) > 0 {
+			all[k] = v
+		} else {
+			delete(all, k)
+		}
+	}
+	b, _ := json.MarshalIndent(all, "", " ")
+	os.WriteFile(path, append(b, '\n'), 0o644)
+}
+
+// quickCheck decides one obligation synchronously (used for candidate invariants during generation).
+func (u *Unit) quickCheck(o *Obl) bool {
+	dir := filepath.Join(os.TempDir(), "govc-quick")
+	os.MkdirAll(dir, 0o755)
+	f, err := os.CreateTemp(dir, "q*.smt2")
+	if err != nil {
+		return false
+	}
+	defer os.Remove(f.Name())
+	f.WriteString(u.query(o, false, nil))
+	f.Close()
+	st, _, _ := runSolver(context.Background(), solvers[0], f.Name(), 3, 0)
+	return st == "unsat"
+}
+
+func (cx *Ctx) buildFuncUnitOnce(fn *ssa.Function, fc *FuncContract, blacklist map[string]bool) (u *Unit, err error) {
 	name := fn.String()
 	u = cx.newUnit(name)
+	u.blacklist = blacklist
 	defer func() {
 		if r := recover(); r != nil {
 			if us, ok := r.(unsupported); ok {
@@ -91,6 +166,10 @@ func (cx *Ctx) buildFuncUnit(fn *ssa.Function, fc *FuncContract) (u *Unit, err e
 	for _, c := range fc.Requires {
 		u.assume(env.trBool(c.E))
 	}
+	for _, c := range fc.Assumes {
+		u.assume(env.trBool(c.E))
+		u.note("assumed input invariant of %s (not established by callers): %s", fn.String(), c.Src)
+	}
 	// vacuity: requires satisfiable
 	cov := u.oblige(st, "cover", fr.fnLabel()+"/cover:requires", "true", fn.Pos(), nil, "preconditions are satisfiable")
 	cov.Cover = true
@@ -102,22 +181,25 @@ func (cx *Ctx) buildFuncUnit(fn *ssa.Function, fc *FuncContract) (u *Unit, err e
 	penv.fr = nil
 	penv.result = res
 	bindResults(penv, fn.Signature, res)
-	for i, c := range fc.Ensures {
-		t := penv.trBool(c.E)
-		id := fmt.Sprintf("%s/post:%s", fr.fnLabel(), clauseName(c, i))
-		if c.Region != nil {
-			// known-finding scoping: the clause must discharge outside the region; inside it is expected to fail
-			renv := fr.specEnv(out, fr.entry)
-			renv.fr = nil
-			bindResults(renv, fn.Signature, res)
-			reg := renv.trBool(c.Region)
-			o := u.oblige(out, "post", id, t, fn.Pos(), c, "postcondition (outside finding region): "+c.Src)
-			o.Extra = []string{not(reg)}
-			o2 := u.oblige(out, "post", id+"@finding", t, fn.Pos(), c, "postcondition (inside finding region): "+c.Src)
-			o2.Extra = []string{reg}
-			continue
+	for i, c0 := range fc.Ensures {
+		for _, pc := range fr.splitClause(c0) {
+			c := pc.c
+			t := penv.trBool(c.E)
+			id := fmt.Sprintf("%s/post:%s%s", fr.fnLabel(), clauseName(c0, i), pc.suffix)
+			if c.Region != nil {
+				// known-finding scoping: the clause must discharge outside the region; inside it is expected to fail
+				renv := fr.specEnv(out, fr.entry)
+				renv.fr = nil
+				bindResults(renv, fn.Signature, res)
+				reg := renv.trBool(c.Region)
+				o := u.oblige(out, "post", id, t, fn.Pos(), c0, "postcondition (outside finding region): "+c.Src)
+				o.Extra = []string{not(reg)}
+				o2 := u.oblige(out, "post", id+"@finding", t, fn.Pos(), c0, "postcondition (inside finding region): "+c.Src)
+				o2.Extra = []string{reg}
+				continue
+			}
+			u.oblige(out, "post", id, t, fn.Pos(), c0, "postcondition: "+c.Src)
 		}
-		u.oblige(out, "post", id, t, fn.Pos(), c, "postcondition: "+c.Src)
 	}
 	if fc.HasAssigns {
 		fr.frameObligations(st, out, fc)
@@ -341,6 +423,13 @@ func (u *Unit) solveObl(o *Obl, outDir string, timeoutS int, seed int, axioms []
 	if st == "sat" || st == "unsat" {
 		return &OblResult{Obl: o, Status: st, Solver: solvers[0].name, Seconds: total, Output: out, File: file, Model: modelOf(st, out)}
 	}
+	if o.Cover {
+		// vacuity checks only fail on "unsat"; an undecided cover is not worth a solver race
+		if st != "unknown" && st != "timeout" {
+			st = "unknown"
+		}
+		return &OblResult{Obl: o, Status: st, Solver: solvers[0].name, Seconds: total, Output: out, File: file}
+	}
 	_ = want
 	// race
 	type r struct {
@@ -363,7 +452,8 @@ func (u *Unit) solveObl(o *Obl, outDir string, timeoutS int, seed int, axioms []
 			cancel()
 			return &OblResult{Obl: o, Status: x.st, Solver: x.name, Seconds: total + x.secs, Output: x.out, File: file, Model: modelOf(x.st, x.out)}
 		}
-		if best.name == "" || x.st == "unknown" {
+		rank := map[string]int{"unknown": 3, "timeout": 2, "error": 1}
+		if best.name == "" || rank[x.st] > rank[best.st] {
 			best = x
 		}
 	}
